@@ -34,7 +34,7 @@ ASSUMPTIONS = [
 MANIFEST = {
     "level": LEVEL,
     "technique": "deterministic simulation with fault enumeration: every fault position x fault kind of generated comptime bodies inside seeded compile/check histories, module namespaces compared with a before-snapshot after every op",
-    "text": "For each seeded configuration (modules, user bindings of int/float/len as function/alias/non-callable/Guppy definition/absent, comptime and regular functions calling each other across modules, comptime functions that are plain / wrapped by a functools.wraps decorator of the same or of a helper module / defined in a helper module and registered from the user's module, the helper module's namespace being part of the snapshot) the check enumerates all fault positions (before s1 .. after sn) x 17 fault kinds of the traced body (user exceptions incl. StopIteration, GeneratorExit, KeyboardInterrupt, SystemExit and a BaseException subclass, tracer errors, a raising Python helper) plus pre-tracing and post-tracing failures, runs 1-6 op histories, and after every op requires every user module's {name: identity} map and builtins to equal the snapshot taken before it. Complete over positions x kinds per configuration; configurations are sampled.",
+    "text": "For each seeded configuration (modules, user bindings of int/float/len as function/alias/non-callable/Guppy definition/absent, comptime and regular functions calling each other across modules, the user rebinding / newly binding / deleting a shadowed name between two ops, comptime functions that are plain / wrapped by a functools.wraps decorator of the same or of a helper module / defined in a helper module and registered from the user's module, the helper module's namespace being part of the snapshot) the check enumerates all fault positions (before s1 .. after sn) x 17 fault kinds of the traced body (user exceptions incl. StopIteration, GeneratorExit, KeyboardInterrupt, SystemExit and a BaseException subclass, tracer errors, a raising Python helper) plus pre-tracing and post-tracing failures, runs 1-6 op histories, and after every op requires every user module's {name: identity} map and builtins to equal the snapshot taken before it. Complete over positions x kinds per configuration; configurations are sampled.",
     "note": "Trusted: the snapshot oracle, the body/fault templates (each fault kind is confirmed to raise at its position by a probe counter), the compat shim.",
     "design_ref": "DESIGN.md section 3 (C23)",
 }
@@ -302,7 +302,8 @@ def run_case(ch: Choices, params: dict) -> dict:
     faults: dict[str, int] = {}
     probes = {"raise_while_user_binding_exists": 0, "raise_in_callee_traced_after_caller": 0,
               "two_modules_mocked_in_one_compile": 0, "fault_fired": 0, "fault_not_reached": 0,
-              "ops_ok": 0, "ops_raised": 0, "raise_in_wrapped_or_foreign_fn": 0}
+              "ops_ok": 0, "ops_raised": 0, "raise_in_wrapped_or_foreign_fn": 0,
+              "user_rebinds_between_ops": 0}
     steps = 0
     # the enumeration: every (comptime fn of module 0.., position, kind) for ONE drawn
     # target function, all positions x all kinds
@@ -325,6 +326,10 @@ def run_case(ch: Choices, params: dict) -> dict:
             plans.append({"fn": target, "kind": k, "pos": 0})
     n_hist_ops = ch.rng_int(1, 4, "n_ops")
     op_draws = [(ch.draw(3, "op_kind"), ch.draw(8, "op_target")) for _ in range(n_hist_ops)]
+    # between two ops the *user* may rebind, newly bind or delete one of the shadowed names
+    # in one of the modules (the snapshot of the next op is taken afterwards)
+    mut_draws = [(ch.draw(3, "user_mutates") == 0, ch.draw(4, "mut_module"), ch.draw(3, "mut_name"),
+                  ch.draw(4, "mut_action")) for _ in range(n_hist_ops + 1)]
     shapes = []
     for pi, fault in enumerate(plans):
         reset_case()
@@ -361,8 +366,22 @@ def run_case(ch: Choices, params: dict) -> dict:
         cands.append((f"M{tm}.ct{tm}_{tj}.compile()", lambda: tfn.compile()))
         ops = [cands[-2]] + [cands[t % len(cands)] for _, t in op_draws]
         fired = False
-        for name, thunk in ops:
+        for oi, (name, thunk) in enumerate(ops):
             steps += 1
+            do_mut, mm_, mn_, ma_ = mut_draws[oi % len(mut_draws)]
+            if do_mut and oi > 0:
+                target_mod = (mods + [hmod])[mm_ % (len(mods) + 1)]
+                nm = SHADOWED[mn_]
+                if ma_ == 0:
+                    setattr(target_mod, nm, lambda *a: 7)
+                elif ma_ == 1:
+                    setattr(target_mod, nm, getattr(builtins, nm))
+                elif ma_ == 2:
+                    setattr(target_mod, nm, None)
+                elif nm in target_mod.__dict__:
+                    delattr(target_mod, nm)
+                probes["user_rebinds_between_ops"] += 1
+                log.add(pi, "user-mutation", mm_ % (len(mods) + 1), nm, ma_)
             before = snapshot(mods, hmod)
             try:
                 thunk()
